@@ -9,7 +9,7 @@ single-colour tiles (C05.h), sqlite writes are committed (C05.i)."""
 import ast
 import re
 
-from ..engine import rule
+from ..engine import rule, run_property
 from ..model import Undecided
 from ..cfg import (dotted, call_name, is_call, simple_name, unparse, const_value, contains, find_all, enclosing,
                    enclosing_stmt, implied, all_atoms)
@@ -1086,4 +1086,19 @@ def c05m(ctx):
         raise Undecided('shared rule %s: %s' % er)
     for o in sub.obs:
         (ctx.ok if o.status == 'ok' else ctx.bad)('%s:%s' % (o.rule, o.construct), o.msg, o.where)
+    ctx.stats['functions'] |= sub.stats['functions']
+
+
+@rule('C05.n', floor=4)
+def c05n(ctx):
+    """shared rule, re-evaluated for this property: what the bundle writers pack the readers unpack -- the same struct formats, the
+    same split of the V2 index entry into offset and size bits (C19.a): an offset read back with another width is another tile's data"""
+    sub = run_property(ctx.repo, 'C19', ctx.tier, only={'C19.a'})
+    for er in sub.errors:
+        raise Undecided('shared rule %s: %s' % er)
+    for o in sub.obs:
+        if o.status == 'ok':
+            ctx.ok('%s:%s' % (o.rule, o.construct), o.msg, o.where)
+        else:
+            ctx.bad('%s:%s' % (o.rule, o.construct), o.msg, o.where)
     ctx.stats['functions'] |= sub.stats['functions']
